@@ -20,6 +20,11 @@ var props = []*hx.Prop{
 	{ID: "C18", Run: runC18},
 }
 
-func TestVsim(t *testing.T) { hx.Main(t, props...) }
+func TestVsim(t *testing.T) {
+	if DecodeOneMain() {
+		return
+	}
+	hx.Main(t, props...)
+}
 
 func TestVsimRace(t *testing.T) { RaceLane(t) }
